@@ -71,7 +71,57 @@ def net_syn(homog=True):
     return net
 
 
-MODELS = {"comp_hh": comp_hh, "cell_hh_leak": cell_hh_leak, "net_syn": net_syn}
+_PUMP = {}
+
+
+def pump_channel():
+    """A user-defined channel (public Channel API) whose state update reads a membrane current (`i_Ca`), so that
+    the current entries of the state dictionary matter for the dynamics (as in jaxley's own CaPump test channel)."""
+    if "cls" not in _PUMP:
+        import jax.numpy as jnp
+        from jaxley.channels import Channel
+
+        class CaAcc(Channel):
+            def __init__(self, name=None):
+                self.current_is_in_mA_per_cm2 = True
+                super().__init__(name)
+                self.channel_params = {f"{self._name}_tau": 2.0, f"{self._name}_gain": 500.0}
+                self.channel_states = {"CaAcc_c": 0.1}
+                self.current_name = "i_Ca"
+
+            def update_states(self, u, dt, v, params):
+                c = u["CaAcc_c"]
+                c_inf = -params[f"{self._name}_gain"] * u["i_Ca"]
+                e = jnp.exp(-dt / params[f"{self._name}_tau"])
+                return {"CaAcc_c": c * e + c_inf * (1 - e)}
+
+            def compute_current(self, u, v, params):
+                return 0.0 * v
+
+            def init_state(self, states, v, params, delta_t):
+                return {}
+
+        _PUMP["cls"] = CaAcc
+    return _PUMP["cls"]()
+
+
+def cell_pump():
+    """Cell ncomp [2,1] with CaL and a channel that integrates the calcium current (reads `i_Ca`)."""
+    from jaxley.channels import CaL, Leak
+
+    m = build.cell_of([-1, 0], [2, 1])
+    _generic_geometry(m)
+    m.set("v", -45.0 + 10.0 * vals.table("i", len(m.nodes), 5))
+    m.insert(Leak())
+    m.insert(CaL())
+    m.set("CaL_gCaL", 2e-3)
+    m.set("CaL_q", 0.4)
+    m.set("CaL_r", 0.6)
+    m.insert(pump_channel())
+    return m
+
+
+MODELS = {"comp_hh": comp_hh, "cell_hh_leak": cell_hh_leak, "net_syn": net_syn, "cell_pump": cell_pump}
 
 
 def stim_series(T, salt=0):
